@@ -216,3 +216,146 @@ def gen_degree(rng, spec, a, b, degrees):
     nmax = int(math.log(1e-11) / math.log(rho)) - 1
     ok = [n for n in degrees if n <= max(0, nmax)]
     return rng.choice(ok or degrees[:1])
+
+
+# ---------------------------------------------------------------- how a returned callable is *used* (shared by C17 / C18)
+#
+# Two input axes of "the returned function is the polynomial", beyond one array call whose result is consumed at once:
+#   * scalar queries (Python float, numpy scalar, 0-d array) at a ladder of small distances from given points (the nodes /
+#     reference points): the array call and the scalar call may take different code paths;
+#   * a history on ONE callable: several queries of the same shape and container, every returned object KEPT (not copied)
+#     and looked at only afterwards; a result overwritten in place by the caller; the caller's query array refilled in place.
+# Both only *produce observations* (x, returned value, how it was obtained); the verdict is the harness's own clause
+# against its exact oracle.
+
+SCALAR_KINDS = ("pyfloat", "np.float64", "0-d array")
+NEAR_REL = (1e-10, 1e-9, 3e-9, 1e-8, 1e-7, 1e-6)      # distances from the point, relative to the width of the node set
+NEAR_ABS = (1e-9, 1e-8)                               # and absolute (an absolute threshold does not scale with the width)
+POISON = -7.25e33
+
+
+def case_rng(tag, inp):
+    """a generator that depends on the case only (not on the run's seed), so that a replay of the case regenerates the
+    same scalar queries and call sequences"""
+    import json
+    return C.rng_for(tag + "|" + json.dumps(C.jsonable(inp), sort_keys=True), 0)
+
+
+def make_query(kind, shape, vals):
+    if kind == "pyfloat":
+        return float(vals[0])
+    if kind == "pyint":
+        return int(vals[0])
+    if kind == "np.float64":
+        return np.float64(vals[0])
+    if kind == "0-d array":
+        return np.array(float(vals[0]))
+    if kind == "list":
+        return [float(v) for v in vals]
+    if kind == "ndarray":
+        return np.array([float(v) for v in vals], dtype=float).reshape(tuple(shape))
+    raise ValueError(kind)
+
+
+def near_points(pts, w, lo=-math.inf, hi=math.inf, rel=NEAR_REL, absd=NEAR_ABS):
+    """[(x, index of the point, signed distance)] with x = pts[i] +- d, d in rel*w u absd, x != pts[i], lo <= x <= hi"""
+    out, seen = [], set()
+    for i, r in enumerate(pts):
+        r = float(r)
+        for d in [t * w for t in rel] + list(absd):
+            for s in (1.0, -1.0):
+                x = float(r + s * d)
+                if x != r and math.isfinite(x) and lo <= x <= hi and x not in seen:
+                    seen.add(x)
+                    out.append((x, i, s * d))
+    return out
+
+
+def history_plans(rng, pool):
+    """call sequences on one callable: per plan, `queries` are equally shaped point sets drawn from `pool`, in the order
+    first, second, first again (, third); one plan per scalar container, a 1-D array, a list and a 2-/3-D array"""
+    P = [float(x) for x in pool]
+
+    def pick(k):
+        if k <= len(P):
+            return [P[i] for i in rng.sample(range(len(P)), k)]
+        return [P[rng.randrange(len(P))] for _ in range(k)]
+
+    def seq(k):
+        A, B = pick(k), pick(k)
+        qs = [A, B, A]
+        if rng.random() < 0.5:
+            qs.append(pick(k))
+        return qs
+    plans = [dict(container=kind, shape=[], queries=seq(1)) for kind in SCALAR_KINDS]
+    # a list comprehension over scalars, the everyday form of "several scalar calls"
+    plans.append(dict(container=rng.choice(SCALAR_KINDS), shape=[], queries=[[x] for x in pick(rng.choice([3, 5, 8]))]))
+    k = rng.choice([1, 2, 3, 5])
+    plans.append(dict(container="ndarray", shape=[k], queries=seq(k)))
+    k = rng.choice([1, 2, 4])
+    plans.append(dict(container="list", shape=[k], queries=seq(k)))
+    sh = rng.choice([(2, 2), (1, 3), (3, 1), (2, 1, 2), (1, 1)])
+    plans.append(dict(container="ndarray", shape=list(sh), queries=seq(int(np.prod(sh)))))
+    return plans
+
+
+def plan_repr(plan):
+    return dict(container=plan["container"], shape=list(plan["shape"]),
+                queries=[[C.fhex(x) for x in q] for q in plan["queries"]],
+                queries_float=[[float(x) for x in q] for q in plan["queries"]])
+
+
+def run_history(p, plan):
+    """Run one call sequence on the callable p, keeping every returned object.  Returns (observations, problems):
+    observations = dicts(stage, call, xs, values) — `values` is what the kept object of call number `call` holds when read at
+    that stage, `xs` the query it was returned for; problems = [(kind, detail)] for shapes and shared memory."""
+    kind, shape = plan["container"], tuple(plan["shape"])
+    Q = [make_query(kind, shape, vals) for vals in plan["queries"]]
+    R = [p(q) for q in Q]                       # kept, never copied
+    obs, problems = [], []
+
+    def read(r):
+        return [float(v) for v in np.asarray(r, dtype=float).ravel()]
+
+    good = []
+    for i, r in enumerate(R):
+        if np.shape(r) != shape:
+            problems.append(("shape", "call %d: query of shape %r gave shape %r" % (i, shape, np.shape(r))))
+            good.append(False)
+        else:
+            good.append(True)
+            obs.append(dict(stage="kept (not copied) while the same callable answered %d more queries of the same shape"
+                                  % (len(R) - 1 - i), call=i, xs=plan["queries"][i], values=read(r)))
+    arrs = [(i, r) for i, r in enumerate(R) if isinstance(r, np.ndarray) and r.size]
+    shared = [(arrs[u][0], arrs[v][0]) for u in range(len(arrs)) for v in range(u + 1, len(arrs))
+              if arrs[u][1] is arrs[v][1] or np.shares_memory(arrs[u][1], arrs[v][1])]
+    if shared:
+        problems.append(("shares_memory", "the objects returned by call %d and call %d share memory (%d such pairs among "
+                                          "%d calls)" % (shared[0][0], shared[0][1], len(shared), len(R))))
+    # the caller overwrites the last result in place: earlier results and later evaluations must not change
+    last = R[-1]
+    if isinstance(last, np.ndarray) and last.size and last.flags.writeable:
+        last[...] = POISON
+        again = p(Q[0])
+        if np.shape(again) == shape:
+            obs.append(dict(stage="evaluated after the caller overwrote the result of call %d in place" % (len(R) - 1),
+                            call=len(R), xs=plan["queries"][0], values=read(again)))
+        for i, r in enumerate(R[:-1]):
+            if good[i]:
+                obs.append(dict(stage="kept result read after the caller overwrote the result of call %d in place and the "
+                                      "callable was called once more" % (len(R) - 1), call=i, xs=plan["queries"][i],
+                                values=read(r)))
+    # the caller refills its own query array in place between two calls
+    if kind in ("ndarray", "0-d array") and len(Q) >= 2:
+        qa = np.array(Q[0], dtype=float)
+        ra = p(qa)
+        qa[...] = np.asarray(Q[1], dtype=float)
+        rb = p(qa)
+        if isinstance(ra, np.ndarray) and ra.size and np.shares_memory(ra, qa):
+            problems.append(("shares_memory", "the returned object shares memory with the caller's query array"))
+        if np.shape(ra) == shape and np.shape(rb) == shape:
+            obs.append(dict(stage="kept result read after the caller refilled its query array in place and called again",
+                            call=0, xs=plan["queries"][0], values=read(ra)))
+            obs.append(dict(stage="evaluated on the caller's query array refilled in place", call=1, xs=plan["queries"][1],
+                            values=read(rb)))
+    return obs, problems
